@@ -179,7 +179,7 @@ def main():
         ],
         "checks": checks,
         "not_applicable": na,
-        "notes": "All checks are bounded exhaustive explorations of the real code (see DESIGN.md). Exit 2 from a check is a machinery error, never a verdict.",
+        "notes": "All checks are bounded exhaustive explorations of the real code (see DESIGN.md). Exit 2 from a check is a machinery error, never a verdict. Known findings are listed in /verif/known_findings.json (never written at run time): one open finding (C03: cut potentials in cells that need more than the sixteen shells the sum is capped at; reached by the thorough tier only), printed as a KNOWN-FINDING line with exit 0; repaired defects are listed there as fixed and suppress nothing.",
     }
     json.dump(m, open('/verif/MANIFEST.json', 'w'), indent=1)
     print("checks:", [c["property_id"] for c in checks], "not claimed:", [n["property_id"] for n in na])
